@@ -47,7 +47,10 @@ COQ_T = {"Z": "Z", "bool": "bool", "sym": "sym", "list:Z": "list Z", "list:list:
          "prod:Z,list:prod:Z,Z": "(Z * list (Z * Z))", "prod:Z,list:Z": "(Z * list Z)",
          "prod:list:prod:Z,Z,list:Z": "(list (Z * Z) * list Z)",
          "coef": "coef", "prod:Z,coef": "(Z * coef)", "list:prod:Z,coef": "list (Z * coef)", "list:list:prod:Z,coef": "list (list (Z * coef))",
-         "prod:list:list:prod:Z,coef,list:Z": "(list (list (Z * coef)) * list Z)", "fun:Z->list:Z": "Z -> list Z", "ptree": "ptree", "list:ptree": "list ptree", "prod:list:prod:Z,Z,list:Z,list:Z": "(list (Z * Z) * list Z * list Z)"}
+         "prod:list:list:prod:Z,coef,list:Z": "(list (list (Z * coef)) * list Z)", "fun:Z->list:Z": "Z -> list Z", "ptree": "ptree", "list:ptree": "list ptree",
+         "permreq": "(list Z * list Z)", "permreqT": "(list Z * list Z)", "vecimg": "(sym * (Z * Z))", "reshaped": "((sym * (Z * Z)) * (Z * Z))",
+         "left": "((list Z * list Z) * ((sym * (Z * Z)) * (Z * Z)))", "conj": "(((list Z * list Z) * ((sym * (Z * Z)) * (Z * Z))) * (list Z * list Z))", "applied": "((list Z * list Z) * (Z * Z))", "hsprod": "((Z * Z) * list (Z * Z))",
+         "prod:list:prod:Z,Z,applied": "(list (Z * Z) * ((list Z * list Z) * (Z * Z)))", "prod:list:prod:Z,Z,hsprod": "(list (Z * Z) * ((Z * Z) * list (Z * Z)))", "prod:list:prod:Z,Z,list:Z,list:Z": "(list (Z * Z) * list Z * list Z)"}
 RESERVED = {"length", "rev", "map", "seq", "combine", "fold_left", "fst", "snd", "negb", "nil", "cons", "app", "Some", "None", "repeat",
             "sym", "fuel", "existsb", "firstn", "skipn", "nth"}
 
@@ -66,6 +69,7 @@ class Fn:
         self.abstr, self.abstr_index, self.paircalls = {}, {}, {}
         self.abstr_calls, self.wrapcalls, self.embcall = {}, {}, None
         self.treecalls, self.allow_vararg = set(), None
+        self.esys_mode = False
         self.types = {}
         self.aux = []           # auxiliary Fixpoints (while loops)
         self.uses_fuel = any(isinstance(n, ast.While) for n in ast.walk(fdef))
@@ -77,7 +81,7 @@ class Fn:
             if isinstance(n, ast.arg) and n.arg in RESERVED:
                 n.arg += "_py"
             if isinstance(n, (ast.Try, ast.With, ast.Lambda, ast.FunctionDef, ast.ClassDef, ast.Global, ast.Nonlocal, ast.Yield, ast.Await,
-                              ast.ListComp, ast.DictComp, ast.SetComp, ast.GeneratorExp, ast.Delete, ast.Assert, ast.Raise)) and n is not fdef:
+                              ast.DictComp, ast.SetComp, ast.GeneratorExp, ast.Delete, ast.Assert, ast.Raise)) and n is not fdef:
                 fail(n, "construct outside the subset")
 
     def fresh(self, base):
@@ -131,6 +135,56 @@ class Fn:
             if ta != "Z":
                 fail(e, "1 / %s" % ta)
             return "(CInv %s)" % a, "coef"
+        if isinstance(e, ast.ListComp):
+            if not self.esys_mode or len(e.generators) != 1 or e.generators[0].ifs or e.generators[0].is_async or not isinstance(e.generators[0].target, ast.Name):
+                fail(e, "list comprehension")
+            src_l, tl = self.expr(e.generators[0].iter)
+            if tl != "list:prod:Z,Z":
+                fail(e, "comprehension over %s" % tl)
+            v = e.generators[0].target.id
+            saved = self.types.get(v)
+            self.types[v] = "esys"
+            body, tb = self.expr(e.elt)
+            if saved is None:
+                del self.types[v]
+            else:
+                self.types[v] = saved
+            if tb != "Z":
+                fail(e, "comprehension element of type %s" % tb)
+            return "(map (fun %s : Z * Z => %s) %s)" % (v, body, src_l), "list:Z"
+        if isinstance(e, ast.Attribute) and isinstance(e.value, ast.Name) and self.types.get(e.value.id) == "esys" and e.attr in ("name", "dim"):
+            return "(%s %s)" % ("fst" if e.attr == "name" else "snd", e.value.id), "Z"
+        if self.esys_mode and isinstance(e, ast.Call) and not e.keywords:
+            fn = ast.unparse(e.func)
+            if fn == "matrix_util.calc_permutation_matrix" and len(e.args) == 2:
+                a, ta = self.expr(e.args[0]); b, tb = self.expr(e.args[1])
+                if ta != "list:Z" or tb != "list:Z":
+                    fail(e, "calc_permutation_matrix of %s, %s" % (ta, tb))
+                return "(%s, %s)" % (a, b), "permreq"
+            if fn == "np.kron" and len(e.args) == 2:
+                a, ta = self.expr(e.args[0]); b, tb = self.expr(e.args[1])
+                if ta == "Z" and tb == "Z":
+                    return "(%s, %s)" % (a, b), "prod:Z,Z"
+            if fn == "_tensor_product_hs_hs" and len(e.args) == 3:
+                a, ta = self.expr(e.args[0]); b, tb = self.expr(e.args[1]); c, tc = self.expr(e.args[2])
+                if (ta, tb, tc) != ("Z", "Z", "list:prod:Z,Z"):
+                    fail(e, "_tensor_product_hs_hs of %s, %s, %s" % (ta, tb, tc))
+                return "((%s, %s), %s)" % (a, b, c), "hsprod"
+        if self.esys_mode and isinstance(e, ast.BinOp) and isinstance(e.op, ast.MatMult):
+            a, ta = self.expr(e.left); b, tb = self.expr(e.right)
+            combos = {("permreq", "prod:Z,Z"): "applied", ("sym", "prod:Z,Z"): "vecimg", ("permreq", "reshaped"): "left", ("left", "permreqT"): "conj"}
+            if (ta, tb) in combos:
+                return "(%s, %s)" % (a, b), combos[(ta, tb)]
+            fail(e, "@ on %s, %s" % (ta, tb))
+        if self.esys_mode and isinstance(e, ast.Attribute) and e.attr == "T" and isinstance(e.value, ast.Name) and self.types.get(e.value.id) == "permreq":
+            return e.value.id, "permreqT"
+        if self.esys_mode and isinstance(e, ast.Call) and isinstance(e.func, ast.Attribute) and e.func.attr == "reshape" and not e.keywords \
+                and len(e.args) == 1 and isinstance(e.args[0], ast.Tuple) and len(e.args[0].elts) == 2 and isinstance(e.func.value, ast.Name):
+            v, tv = self.expr(e.func.value)
+            a, ta = self.expr(e.args[0].elts[0]); b, tb = self.expr(e.args[0].elts[1])
+            if tv != "vecimg" or ta != "Z" or tb != "Z":
+                fail(e, "reshape of %s to (%s, %s)" % (tv, ta, tb))
+            return "(%s, (%s, %s))" % (v, a, b), "reshaped"
         if isinstance(e, ast.Call) and ast.unparse(e.func) in self.treecalls and not e.keywords and len(e.args) == 2:
             a, ta = self.expr(e.args[0]); b, tb = self.expr(e.args[1])
             if ta != "ptree" or tb != "ptree":
@@ -372,7 +426,7 @@ class Fn:
                             else:
                                 fail(n, "assignment target")
                 elif isinstance(n, ast.Expr) and isinstance(n.value, ast.Call) and isinstance(n.value.func, ast.Attribute) \
-                        and n.value.func.attr == "append" and isinstance(n.value.func.value, ast.Name):
+                        and n.value.func.attr in ("append", "extend") and isinstance(n.value.func.value, ast.Name):
                     add(n.value.func.value.id)
                 elif isinstance(n, ast.For):
                     for m in ast.walk(n.target):
@@ -471,6 +525,13 @@ class Fn:
             elif lt != "list:" + t:
                 fail(s, "append of %s to %s" % (t, lt))
             return "let %s := (%s ++ [%s]) in\n  %s" % (lst, lst, v, cont())
+        if isinstance(s, ast.Expr) and isinstance(s.value, ast.Call) and isinstance(s.value.func, ast.Attribute) \
+                and s.value.func.attr == "extend" and isinstance(s.value.func.value, ast.Name) and len(s.value.args) == 1 and not s.value.keywords:
+            lst = s.value.func.value.id
+            v, t = self.expr(s.value.args[0])
+            if self.types.get(lst) != t or not t.startswith("list:"):
+                fail(s, "extend of %s by %s" % (self.types.get(lst), t))
+            return "let %s := (%s ++ %s) in\n  %s" % (lst, lst, v, cont())
         if isinstance(s, ast.If):
             c, tc = self.expr(s.test)
             if tc != "bool":
@@ -831,6 +892,22 @@ def pick_ctor(cname, kws):
     return mk
 
 
+def pick_two(cname):
+    """return NAME with NAME = <cname>(C_SYS, PAYLOAD, kw=...)  ->  [C_SYS, PAYLOAD]"""
+    def mk(self_holder):
+        def pick(f):
+            rt = f.body[-1]
+            if not (isinstance(rt, ast.Return) and isinstance(rt.value, ast.Name)):
+                fail(rt, "return of a name expected")
+            defs = [st for st in f.body if isinstance(st, ast.Assign) and len(st.targets) == 1 and isinstance(st.targets[0], ast.Name) and st.targets[0].id == rt.value.id]
+            if len(defs) != 1 or not ctor_call(defs[0].value, cname) or len(defs[0].value.args) != 2:
+                fail(rt, "the returned name must be bound exactly once, to %s(c_sys, payload, ...)" % cname)
+            self_holder.append(defs[0])
+            return list(defs[0].value.args)
+        return pick
+    return mk
+
+
 def pick_ensemble(self_holder):
     """return StateEnsemble(STATES, MD) with MD = MultinomialDistribution(PS, shape=SHAPE)  ->  [STATES, PS, SHAPE]"""
     def pick(f):
@@ -913,6 +990,64 @@ def translate_dispatch(f):
     return txt + "  None."
 
 
+def translate_to_list(f):
+    """_to_list(*elements): flatten list arguments one level, reject fewer than N operands.
+    Accepted shape (everything else fails): `L = []`; `for e in elements: if type(e) == list: L.extend(e) | L.append(e)  else: ...`;
+    `if len(L) <op> <int>: raise ValueError(...)`; optional `assert ...` (no effect when the guard did not raise); `return L`.
+    -> gen_to_list (elements : list parg) : option (list ptree)   (None = ValueError)"""
+    if f.args.args or not f.args.vararg or f.args.kwarg or f.args.kwonlyargs or f.args.defaults:
+        fail(f, "parameters: exactly *args expected")
+    va = f.args.vararg.arg
+    body = [st for st in f.body if not (isinstance(st, ast.Expr) and isinstance(st.value, ast.Constant))]
+    if len(body) not in (4, 5):
+        fail(f, "body shape")
+    init, loop, guard = body[0], body[1], body[2]
+    rest = body[3:]
+    if not (isinstance(init, ast.Assign) and len(init.targets) == 1 and isinstance(init.targets[0], ast.Name) and ast.unparse(init.value) == "[]"):
+        fail(init, "`L = []` expected")
+    L = init.targets[0].id
+    if not (isinstance(loop, ast.For) and isinstance(loop.target, ast.Name) and ast.unparse(loop.iter) == va and not loop.orelse
+            and len(loop.body) == 1 and isinstance(loop.body[0], ast.If) and len(loop.body[0].orelse) == 1 and len(loop.body[0].body) == 1):
+        fail(loop, "`for e in %s: if ...: ... else: ...` expected" % va)
+    e = loop.target.id
+    test = loop.body[0].test
+    if ast.unparse(test) != "type(%s) == list" % e:
+        fail(test, "`type(%s) == list` expected" % e)
+
+    def act(st):
+        src = ast.unparse(st)
+        if src == "%s.extend(%s)" % (L, e):
+            return "extend"
+        if src == "%s.append(%s)" % (L, e):
+            return "append"
+        fail(st, "`%s.extend(%s)` or `%s.append(%s)` expected" % (L, e, L, e))
+    on_list, on_item = act(loop.body[0].body[0]), act(loop.body[0].orelse[0])
+    if on_item == "extend":
+        fail(loop, "extend of a non-list operand (iterates over the object)")
+    if not (isinstance(guard, ast.If) and not guard.orelse and len(guard.body) == 1 and isinstance(guard.body[0], ast.Raise)
+            and ast.unparse(guard.body[0].exc).startswith("ValueError(") and isinstance(guard.test, ast.Compare) and len(guard.test.ops) == 1
+            and ast.unparse(guard.test.left) == "len(%s)" % L and isinstance(guard.test.comparators[0], ast.Constant)
+            and type(guard.test.comparators[0].value) is int):
+        fail(guard, "`if len(%s) <op> <int>: raise ValueError(...)` expected" % L)
+    ops = {ast.Lt: "<?", ast.LtE: "<=?", ast.Gt: ">?", ast.GtE: ">=?", ast.Eq: "=?"}
+    if type(guard.test.ops[0]) not in ops:
+        fail(guard, "comparison operator")
+    cmp_ = "(Z.of_nat (length %s) %s %d)%%Z" % (L, ops[type(guard.test.ops[0])], guard.test.comparators[0].value)
+    if len(rest) == 2:
+        if not isinstance(rest[0], ast.Assert):
+            fail(rest[0], "assert expected")
+        rest = rest[1:]
+    if not (isinstance(rest[0], ast.Return) and ast.unparse(rest[0].value) == L):
+        fail(rest[0], "`return %s` expected" % L)
+    # a list operand: extend = its elements, append = the list itself as ONE operand (a nested list is not an operand of the product)
+    if on_list == "append":
+        fail(loop, "a list operand appended as one element")
+    return ("Definition gen_to_list (elements : list parg) : option (list ptree) :=\n"
+            "  let %s := fold_left (fun (acc : list ptree) (%s : parg) =>\n"
+            "      match %s with AList l_ => acc ++ l_ | AItem t_ => acc ++ [t_] end) elements [] in\n"
+            "  if %s then None else Some %s." % (L, e, e, cmp_, L))
+
+
 def find_function(tree, name, cls=None):
     scope = tree
     if cls:
@@ -983,6 +1118,7 @@ def main():
                 raise Unsupported("%s returns %s, expected %s" % (pyname, r, rtype))
             out += ["(* from quara/objects/operators.py : %s (slice: HS / state pairs in list order, reported shape) *)" % pyname, t, ""]
         out += ["(* from quara/objects/operators.py : _tensor_product (type dispatch) *)", translate_dispatch(find_function(ops, "_tensor_product")), ""]
+        out += ["(* from quara/objects/operators.py : _to_list (flattening of list arguments, arity guard) *)", translate_to_list(find_function(ops, "_to_list")), ""]
         ff = Fn(find_function(ops, "tensor_product"), [], "gen_tensor_product", {})
         ff.allow_vararg = "elements"
         ff.abstr = {"_to_list(*elements)": ("element_list_in", "list:ptree")}
@@ -991,6 +1127,30 @@ def main():
         if rf != "ptree":
             raise Unsupported("tensor_product returns %s" % rf)
         out += ["(* from quara/objects/operators.py : tensor_product (fold over the flattened argument list) *)", tf, ""]
+        fh = Fn(find_function(ops, "_tensor_product_hs_hs"), [("hs1", "Z"), ("hs2", "Z"), ("e_sys_list", "list:prod:Z,Z")], "gen_tensor_product_hs_hs", {})
+        fh.esys_mode = True
+        fh.abstr = {"hs1.flatten()": ("f1", "Z"), "hs2.flatten()": ("f2", "Z"), "hs1.shape[0]": ("d1_in", "Z"), "hs2.shape[0]": ("d2_in", "Z")}
+        th, rh = fh.translate()
+        if rh != "conj":
+            raise Unsupported("_tensor_product_hs_hs returns %s" % rh)
+        out += ["(* from quara/objects/operators.py : _tensor_product_hs_hs (symbolic: vectorisation order, re-indexing permutation, reshape, subsystem permutation) *)", th, ""]
+        ptable = [
+            ("_tensor_product_State_State", "gen_tp_state_state", ["state1", "state2"], "State",
+             {"state1.composite_system.elemental_systems": ("es1", "list:prod:Z,Z"), "state2.composite_system.elemental_systems": ("es2", "list:prod:Z,Z"),
+              "state1.vec": ("v1", "Z"), "state2.vec": ("v2", "Z")}, "prod:list:prod:Z,Z,applied"),
+            ("_tensor_product_Gate_Gate", "gen_tp_gate_gate", ["gate1", "gate2"], "Gate",
+             {"gate1.composite_system._elemental_systems": ("es1", "list:prod:Z,Z"), "gate2.composite_system._elemental_systems": ("es2", "list:prod:Z,Z"),
+              "gate1.hs": ("h1", "Z"), "gate2.hs": ("h2", "Z")}, "prod:list:prod:Z,Z,hsprod"),
+        ]
+        for pyname, coq_name, opn, cname, abstr, rtype in ptable:
+            holder = []
+            fn = SliceFn(find_function(ops, pyname), coq_name, abstr, {}, {}, pick_two(cname)(holder), opn, wrapcalls={"CompositeSystem": 0})
+            fn.esys_mode = True
+            fn.ctor_stmts = holder
+            t, r = fn.translate()
+            if r != rtype:
+                raise Unsupported("%s returns %s, expected %s" % (pyname, r, rtype))
+            out += ["(* from quara/objects/operators.py : %s (slice: subsystem list, permutation request, operand order) *)" % pyname, t, ""]
         emb = "QOperation._calc_matrix_from_qutrits_to_qubits"
         etable = [
             ("quara/objects/state.py", "State", "gen_embed_state", {"self.to_density_matrix_with_sparsity()": ("rho", "Z")}, {},
@@ -1017,7 +1177,7 @@ def main():
         print("UNSUPPORTED: %s" % e)
         sys.exit(3)
     open(outpath, "w").write("\n".join(out))
-    print("ok: 14 functions -> %s" % outpath)
+    print("ok: 18 functions -> %s" % outpath)
 
 
 if __name__ == "__main__":
